@@ -30,7 +30,7 @@ func transportScenario(kind int, r *rand.Rand) (string, string) {
 		return FetchResp{Hang: true}
 	}}
 	tr := &kafka.Transport{
-		DialTimeout: 5 * time.Second,
+		DialTimeout: time.Second,
 		IdleTimeout: 50 * time.Millisecond,
 		Dial: func(ctx context.Context, network, addr string) (net.Conn, error) {
 			if kind%2 == 1 {
@@ -133,12 +133,8 @@ func transportScenario(kind int, r *rand.Rand) (string, string) {
 	}
 	n := settle(base, 8*time.Second)
 	rec.add("lk/%d", n)
-	oc := int(atomic.LoadInt32(&open))
-	for i := 0; i < 500 && oc != 0; i++ {
-		time.Sleep(2 * time.Millisecond)
-		oc = int(atomic.LoadInt32(&open))
-	}
-	rec.add("oc/%d", oc)
+	// no connection census: a Transport keeps the connection of an abandoned dial / request until its own
+	// deadline; the property speaks of the connections of a Reader or ConsumerGroup only
 	return fmt.Sprintf("tclose k=%d %s", kind, rec.String()), fmt.Sprintf("pending=%s", pend)
 }
 
